@@ -648,6 +648,7 @@ type FinalState struct {
 	HasSeq      bool
 	HasLock     bool
 	Tables      int
+	AppBusy     bool // an application statement failed with SQLITE_BUSY/locked (it lost a race for a lock): the run is not the same application history as one where it succeeded
 }
 
 // RunFinal executes the history (ignoring litestream-only operations when
@@ -675,10 +676,15 @@ func RunFinal(h History) (FinalState, RunStats, error) {
 		if out != "ok" {
 			st.Errors++
 			st.ErrKinds = append(st.ErrKinds, op.K+" "+trunc(out, 70))
+			if !isLitestreamOp(op.K) && isBusyText(out) {
+				fs.AppBusy = true
+			}
 		}
 	}
 	if e.bgDone != nil {
-		<-e.bgDone
+		if err := <-e.bgDone; err != nil && isBusyText(err.Error()) {
+			fs.AppBusy = true
+		}
 		e.bgDone = nil
 	}
 	e.endReader()
@@ -711,18 +717,49 @@ func RunFinal(h History) (FinalState, RunStats, error) {
 	return fs, st, nil
 }
 
+func isBusyText(s string) bool {
+	s = strings.ToLower(s)
+	return strings.Contains(s, "database is locked") || strings.Contains(s, "sqlite_busy") || strings.Contains(s, "database table is locked")
+}
+
 // GenC14 generates deterministic application histories with litestream activity in between.
 func GenC14(r *hx.Rand, thorough bool) History {
 	h := GenC01(r, thorough)
 	// also exercise stop/start and snapshots/compactions more often
 	var ops []Op
+	inBg := false // a background writer is in flight: no foreground application op until cwait (it would race for the write lock differently in the control run)
 	for _, op := range h.Ops {
 		ops = append(ops, op)
+		switch op.K {
+		case "cw", "cwhold":
+			inBg = true
+		case "cwait":
+			inBg = false
+		}
 		if r.Chance(8) {
 			ops = append(ops, Op{K: "lckpt", S: Modes[r.Intn(4)]})
 		}
 		if r.Chance(4) {
 			ops = append(ops, Op{K: "snap"})
+		}
+		if r.Chance(6) {
+			// a local storage fault while litestream checkpoints / syncs / snapshots, then it goes away
+			ops = append(ops, Op{K: "blocktmp", A: 1 + r.Intn(3)})
+			if !inBg && r.Chance(50) {
+				ops = append(ops, genAppOp(r, h.Cfg.PageSize))
+			}
+			switch r.Intn(4) {
+			case 0:
+				ops = append(ops, Op{K: "sync"})
+			case 1:
+				ops = append(ops, Op{K: "snap"})
+			default:
+				ops = append(ops, Op{K: "lckpt", S: Modes[r.Intn(4)]})
+			}
+			if r.Chance(30) {
+				ops = append(ops, Op{K: "lckpt", S: Modes[r.Intn(4)]})
+			}
+			ops = append(ops, Op{K: "unblocktmp"}, Op{K: "sync"})
 		}
 	}
 	h.Ops = ops
